@@ -32,7 +32,15 @@ func behaviourClass(steps []step, verdictKey string) string {
 	nver := 0
 	last := steps[len(steps)-1]
 	otherRemoteBranch := ""
+	merged := map[string]bool{}
+	oidOn := map[string]map[string]bool{} // oid -> branches on which a commit introduced it
 	for _, s := range steps {
+		if s.str("a") == "commit" && s.str("blob") != "raw" && s.str("blob") != "none" {
+			if oidOn[s.str("blob")] == nil {
+				oidOn[s.str("blob")] = map[string]bool{}
+			}
+			oidOn[s.str("blob")][s.str("b")] = true
+		}
 		if otherRemoteBranch != "" && s.str("b") == otherRemoteBranch && (s.str("a") == "commit" || s.str("a") == "committree" || s.str("a") == "merge") {
 			feat["otherremote-stale"] = true // the local branch moved on after the second remote's ref was taken
 		}
@@ -46,6 +54,17 @@ func behaviourClass(steps []step, verdictKey string) string {
 			feat["other"] = true
 		case "merge":
 			feat["merge"] = true
+			merged[s.str("o")] = true
+		case "delbranch":
+			feat["delbranch"] = true
+			if merged[s.str("b")] {
+				feat["delbranch-merged"] = true // its commits stay reachable through a merge's second parent only
+				for _, on := range oidOn {
+					if len(on) == 1 && on[s.str("b")] {
+						feat["side-only"] = true // an object introduced by commits of that branch alone
+					}
+				}
+			}
 		case "commit":
 			if s.str("blob") == "raw" {
 				feat["raw"] = true
@@ -167,6 +186,14 @@ func sampleBehaviours(c *core.Ctx, file string, verdictKey string, budget int) (
 			if samplePriority(k) {
 				out = append(out, byClass[k][0])
 				taken[k] = true
+			}
+		}
+		// room left in the priority share: further members of the priority classes
+		for round := 1; round < 8; round++ {
+			for _, k := range classes {
+				if samplePriority(k) && round < len(byClass[k]) && len(out) < budget/4 {
+					out = append(out, byClass[k][round])
+				}
 			}
 		}
 	}
